@@ -295,6 +295,15 @@ class Checker(object):
                     res = solver.lexicographic_optimize(goals,
                                                         strategy=strategy)
                 else:
+                    if j % 3 == 0:
+                        # a caller that stops after the first point: the
+                        # generator is closed early and must still restore
+                        # the stack (checked below like every other run)
+                        gen_ = solver.pareto_optimize(goals)
+                        for _pt in gen_:
+                            break
+                        gen_.close()
+                        rep.count('pareto_closed_early')
                     res = list(solver.pareto_optimize(goals))
             calls = solver.n_solve_calls - calls0
         except Exception as e:
